@@ -232,16 +232,19 @@ class Roles:
         return out
 
     def wrappers(self) -> dict:
-        """Closures created by `jaxtyped`: those decorated with functools.wraps(fn)."""
+        """Closures created by `jaxtyped`: 'wraps' = those jaxtyped hands back to the user
+        (their name is returned by jaxtyped, or they carry functools.wraps), 'impl' = the
+        other nested functions."""
         jt = self.m.func("_decorator.jaxtyped")
+        returned = set()
+        for st in walk_scope(jt.node):
+            if isinstance(st, ast.Return) and isinstance(st.value, ast.Name):
+                returned.add(st.value.id)
         res = {"wraps": [], "impl": []}
         for f in self.m.functions.values():
-            p = f.parent
-            while isinstance(p, FuncInfo) and p is not jt:
-                p = p.parent
-            if p is not jt or f is jt:
+            if f.parent is not jt:
                 continue
-            is_wraps = False
+            is_wraps = f.name in returned
             for d in f.decorators:
                 if isinstance(d, ast.Call):
                     t = self.m.resolve_call(jt, d)
@@ -251,7 +254,7 @@ class Roles:
                 res["wraps"].append(f)
             else:
                 res["impl"].append(f)
-        need(res["wraps"], "no functools.wraps-decorated wrapper closure found in jaxtyped")
+        need(res["wraps"], "no wrapper closure returned by jaxtyped found")
         return res
 
 
